@@ -320,8 +320,24 @@ def validation_cases(ctx, n_trees, kind="any", unknown=0.05, flags=(True, False)
         lines = random_ahb(ctx.rng, kind)
         lt = "[" + "; ".join(node_term(n, cache) for n in lines) + "]"
         inv = {m for m in cache.inv.values() if m}
+        kinds = {"G": 0, "S": 0, "F": 0, "P": 0}
+
+        def walk(n, depth):
+            kinds[n[0]] += 1
+            return max([depth] + [walk(c, depth + 1) for c in (n[3] if n[0] in ("G", "S") else [])])
+
+        depth = max(walk(n, 1) for n in lines)
+        ctx.dist("ahb_tree.nodes", ctx.bucket(sum(kinds.values())))
+        ctx.dist("ahb_tree.depth", depth)
+        for k_, v_ in kinds.items():
+            for _i in range(v_):
+                ctx.dist("ahb_tree.node_kind", {"G": "segment group", "S": "segment", "F": "free text", "P": "value pool"}[k_])
         for soll in flags:
             res = run_validation(lines, soll)
+            ctx.dist("validation.outcome", "rows" if res[0] == "ok" else str(res[1]))
+            if res[0] == "ok":
+                for r_ in res[1]:
+                    ctx.dist("validation.status", r_.validation_result.requirement_validation.name)
             out.append({"cer": (rc, h, fc), "packages": dict(CURRENT_PACKAGES), "lines": lines, "soll": soll, "res": res, "cache": cache,
                         "term": f"({gcer(rc, h, fc)}, {lt}, {gbool(soll)}, {val_obs(res, inv)})"})
     return out
